@@ -55,6 +55,10 @@ class EFLRSetsDict(defaultdict):
             An EFLRSet instance of given subtype and name, registered in the structure.
         """
 
+        # an empty name is written as 'no name' (see EFLRSet._make_set_component_bytes), so it means the unnamed set;
+        # kept apart, '' and None would give two sets of the same type and (no) name in one logical file
+        set_name = set_name or None
+
         # dict mapping set names on EFLRSet (subclass) instances
         eflr_set_dict: dict[Union[str, None], AnyEFLRSet] = self[eflr_set_type]
 
